@@ -89,6 +89,11 @@ func spacedHex(s string) []byte {
 // model ignores the word, so a deviation of either side from the vector shows in the diff.
 func vectors(g *GenCtx) {
 	files, _ := filepath.Glob(filepath.Join(repoDir(), "cyclist", "testdata", "*.txt"))
+	if len(files) == 0 {
+		// the published vector anchors the model: without it the check must not pass
+		fmt.Fprintln(os.Stderr, "no vector files in", filepath.Join(repoDir(), "cyclist", "testdata"))
+		os.Exit(1)
+	}
 	for _, fn := range files {
 		raw, err := os.ReadFile(fn)
 		if err != nil {
